@@ -308,7 +308,10 @@ class Ctx:
         self.violations.append((signature, path, what))
 
     def tie_broken(self, what, detail=""):
-        self.broken.append((what, detail))
+        n = sum(1 for w, _ in self.broken if w == what)
+        self.count("broken:" + what)
+        if n < 3:        # keep the first few instances of each kind as evidence
+            self.broken.append((what, detail))
 
     def finish(self):
         """print verdict lines, write evidence, return exit code"""
@@ -323,7 +326,7 @@ class Ctx:
             path = self.write_replay("obligation", "obligation-broken", None,
                                      obligation=[{"item": w, "detail": d[-4000:]} for w, d in self.broken])
             print("VIOLATION property=%s replay=%s  broken: %s no-failing-input-found"
-                  % (self.pid, path, ", ".join(w for w, _ in self.broken)))
+                  % (self.pid, path, ", ".join(sorted(set(w for w, _ in self.broken)))))
             rc = 1
         cov = {
             "obligations": self.obligations, "discharged": self.discharged,
